@@ -56,10 +56,19 @@ def spec_size(toks):
     return sum(1 for t in toks if t == "F"), sum(int(t[1:]) for t in toks if re.fullmatch(r"W[0-9]+", t))
 
 
+HOP, HSITE = {}, {}
+
+
 def parse_output(out):
     V, X, S, O, E = [], {}, [], [], []
     for line in out.splitlines():
         p = line.split("\t")
+        if p[0] in ("HOP", "HSITE") and len(p) == 2:
+            tgt = HOP if p[0] == "HOP" else HSITE
+            for kv in p[1].split():
+                k, n = kv.split(":")
+                tgt[int(k)] = tgt.get(int(k), 0) + int(n)
+            continue
         if p[0] == "V" and len(p) == 5:
             V.append(dict(case=p[1], tag=p[2], spec=p[3], verdict=p[4]))
         elif p[0] == "X" and len(p) == 7:
@@ -141,7 +150,9 @@ def run(ctx):
     profiles = ["dev"] if ctx.tier == "quick" else ["dev", "release"]
     ncases = 700 if ctx.tier == "quick" else 12000
     tot_eval, distinct = 0, set()
-    dist = {}
+    dist, sources, sizes = {}, {}, {}
+    HOP.clear()
+    HSITE.clear()
     stats = dict(functions=0, accepted=0, rejected=0, gap=0, executed=0, instructions=0, offgrid_runs=0, stale_len_instrs=0,
                  oob_events=0, ends={})
     for prof in profiles:
@@ -166,7 +177,7 @@ def run(ctx):
             if fn.endswith(".txt"):
                 runs.append(("corpus/" + fn, [exe, "--corpus", os.path.join(cdir, fn)] + common))
         if not getattr(ctx, "replay_file", None):
-            runs.append(("random", [exe, "--seed", str(ctx.seed), "--cases", str(ncases)] + common))
+            runs.append(("random", [exe, "--seed", str(ctx.seed), "--cases", str(ncases)] + common + (["--sweep-all"] if ctx.tier == "thorough" else [])))
         V, X, S, O = [], {}, [], []
         for name, cmd in runs:
             rc, out = vlib.sh(cmd, timeout=1500)
@@ -197,6 +208,13 @@ def run(ctx):
             verdict = d["verdict"]
             fam = d["tag"].split(":")[1] if ":" in d["tag"] else d["tag"]
             dist[fam] = dist.get(fam, 0) + 1
+            src = "avbc" if "avbc" in d["tag"] else ("aasm" if "aasm" in d["tag"] else ("corpus" if d["tag"] == "corpus" else "compiler+mutation"))
+            sources[src] = sources.get(src, 0) + 1
+            if d["tag"].endswith(":gc") or "baseline-gc" in d["tag"]:
+                sources["gc-at-every-safepoint"] = sources.get("gc-at-every-safepoint", 0) + 1
+            nf, nw = spec_size(toks)
+            sizes["functions<=1" if nf <= 1 else ("functions<=3" if nf <= 3 else "functions>3")] = sizes.get("functions<=1" if nf <= 1 else ("functions<=3" if nf <= 3 else "functions>3"), 0) + 1
+            sizes["words<=8" if nw <= 8 else ("words<=32" if nw <= 32 else "words>32")] = sizes.get("words<=8" if nw <= 8 else ("words<=32" if nw <= 32 else "words>32"), 0) + 1
             stats["functions"] += 1
             if verdict == "accept":
                 obs = "1"
@@ -293,8 +311,16 @@ def run(ctx):
                         + [{"instruction_state": s["snap"], "logged": s["acc"][:8]} for s in S[:2]])
     ctx.cov["evaluations"] = tot_eval
     ctx.cov["distinct_nontrivial"] = len(distinct)
-    ctx.cov["input_distribution"] = {"mutation_family_counts": dist, **{k: v for k, v in stats.items()}}
-    ctx.cov["rule"] = ("15 small programs (3 of them call-site-cache histories: global closure with a longer constant table than its caller, slow path / global store / miss / hit) compiled at -O0..-O3 by the real pipeline, all run unmutated first, then each mutated by one of: as-is, nested functions with upvalue descriptors at 0/k-1/k/k+1/255 from plain and closure frames, jump retargeted to any word "
+    declared = sorted({v for _, v in ops}) if model_ok else []
+    handled = sorted(names[n] for n in table) if model_ok else []
+    never = [b for b in handled if HOP.get(b, 0) == 0]
+    ctx.cov["input_distribution"] = {"mutation_family_counts": dist, "function_source": sources, "sizes": sizes,
+                                     **{k: v for k, v in stats.items()},
+                                     "executed_opcode_histogram": {str(k): v for k, v in sorted(HOP.items())},
+                                     "logged_site_histogram": {SITE.get(k, "snapshot:%d" % k): v for k, v in sorted(HSITE.items()) if k < 100},
+                                     "verifier_handled_opcodes": len(handled), "opcodes_executed_at_least_once": len([b for b in declared if HOP.get(b, 0)]),
+                                     "handled_opcodes_never_executed": never}
+    ctx.cov["rule"] = ("one instruction of every opcode byte 0..181 on int / class-matching (float, array, vec, string) registers with two operand triples (all five register contents in the thorough tier); 16 small programs (4 of them call-site-cache histories: global closure with a longer constant table than its caller, slow path / global store / miss / hit) compiled at -O0..-O3 by the real pipeline, all run unmutated first, then each mutated by one of: as-is, nested functions with upvalue descriptors at 0/k-1/k/k+1/255 from plain and closure frames, jump retargeted to any word "
                        "index (incl. len, len+1, -1), opcode byte of a cache word rewritten + jump into it, num_registers changed, stream "
                        "truncated / extended, operand or opcode byte rewritten, constants/upvalue descriptors changed, wrapped in 1-3 or "
                        "62-67 closure-calling wrappers (Call / CallCached), GetGlobal/SetGlobal with a small imm16 inside a wrapper, "
